@@ -385,6 +385,56 @@ _AT_ZERO = {"exp": 1, "tanh": 0, "arctanh": 0, "cosh": 1, "sinh": 0, "cos": 1, "
 # Sym
 
 
+class SymC:
+    """Minimal symbolic complex number (real and imaginary parts are Sym / float): only what
+    `complex(re + 1j * im)` followed by `.real` / `.imag` needs -- sums, differences and products."""
+
+    __array_priority__ = 1001
+    __slots__ = ("real", "imag")
+
+    def __init__(self, re, im):
+        self.real, self.imag = re, im
+
+    @staticmethod
+    def _parts(v):
+        if isinstance(v, SymC):
+            return v.real, v.imag
+        if isinstance(v, complex):
+            return v.real, v.imag
+        return v, 0.0
+
+    @staticmethod
+    def _op(a, b, f):
+        ar, ai = SymC._parts(a)
+        br, bi = SymC._parts(b)
+        if f is operator.add:
+            return SymC(ar + br, ai + bi)
+        if f is operator.sub:
+            return SymC(ar - br, ai - bi)
+        if f is operator.mul:
+            return SymC(ar * br - ai * bi, ar * bi + ai * br)
+        raise TypeError("symbolic complex numbers support +, -, * only")
+
+    def __add__(s, o): return SymC._op(s, o, operator.add)
+    def __radd__(s, o): return SymC._op(o, s, operator.add)
+    def __sub__(s, o): return SymC._op(s, o, operator.sub)
+    def __rsub__(s, o): return SymC._op(o, s, operator.sub)
+    def __mul__(s, o): return SymC._op(s, o, operator.mul)
+    def __rmul__(s, o): return SymC._op(o, s, operator.mul)
+
+    def __repr__(s):
+        return f"SymC({s.real}, {s.imag})"
+
+
+def symcomplex(re=0.0, im=None):
+    """replacement for the builtin `complex` in patched modules"""
+    if isinstance(re, SymC) and im is None:
+        return re
+    if isinstance(re, Sym) or isinstance(im, Sym):
+        return SymC(re, 0.0 if im is None else im)
+    return complex(re) if im is None else complex(re, im)
+
+
 class Sym:
     """Symbolic real.  Comparisons are *eager*: they return a python bool chosen by the
     path explorer, so real numpy code keeps working on object arrays of Sym."""
@@ -399,6 +449,8 @@ class Sym:
     def _b(self, o, f, rev=False):
         if isinstance(o, np.ndarray):
             return NotImplemented
+        if isinstance(o, SymC) or (isinstance(o, complex) and o.imag != 0):
+            return SymC._op(o, self, f) if rev else SymC._op(self, o, f)
         try:
             oz = toz3(o)
         except TypeError:
